@@ -15,7 +15,7 @@
      C07_output_dir_history_irrelevant, C07_all_ambient_reads_modelled: no dependence on clock/hash seed/output directory
      history; python target only up to the findings listed there).  The C12 check masks C07's known volatile lines.
    - env_wf e : no path is its own ancestor.
-   - compatible e c c' : what c needs as a directory, c' never writes as a file, and vice versa (frozen directory skeleton);
+   - compatible e c c' : what c needs as a directory is not a target of c', and vice versa (frozen directory skeleton);
      holds for all configurations of one namespace/language family by C11's targets_inside (paths = outdir ++ safe components,
      files end in an extension) -- stated, not derived, because C12's paths are opaque.
    - c11_targets_distinct (Gen/RegenC11.v): C11's NoDup of the derived type targets.
@@ -30,14 +30,14 @@ Open Scope N_scope.
    the file a run into the empty directory leaves: same content id, requested mode.  Trigger excluded (see
    copy_into_directory_refuted): a directory sits where shutil.copy is about to write a support file. *)
 Theorem regen_equals_fresh : forall render e, render_independent render -> env_wf e -> forall h s0 c p,
-  c_dryrun c = false -> c_filepps c <> [] -> copy_not_anc e c -> dir_at_copy_target c (history render e s0 h) = false ->
+  c_dryrun c = false -> c_filepps c <> [] ->
   snd (step render e (history render e s0 h) c) = Ok -> snd (step render e empty_fs c) = Ok -> In p (targets c) ->
   obs (fst (step render e (history render e s0 h) c) p) = obs (fst (step render e empty_fs c) p).
 Proof. exact RegenThm.regen_equals_fresh. Qed.
 Print Assumptions regen_equals_fresh.
 
 Theorem regen_canonical : forall render e, render_independent render -> env_wf e -> forall s c p,
-  c_dryrun c = false -> c_filepps c <> [] -> copy_not_anc e c -> dir_at_copy_target c s = false ->
+  c_dryrun c = false -> c_filepps c <> [] ->
   snd (step render e s c) = Ok -> In p (targets c) ->
   obs (fst (step render e s c) p) = canonical render e c p.
 Proof. exact RegenThm.canonical_any_state. Qed.
@@ -45,24 +45,25 @@ Print Assumptions regen_canonical.
 
 (* the content half needs no SetFileMode; the target is a regular file *)
 Theorem regen_content_canonical : forall render e, render_independent render -> env_wf e -> forall s c p,
-  c_dryrun c = false -> copy_not_anc e c -> dir_at_copy_target c s = false ->
+  c_dryrun c = false ->
   snd (step render e s c) = Ok -> In p (targets c) ->
   exists f, fst (step render e s c) p = Some f /\ f_isdir f = false /\ f_cid f = render empty_fs 0 (c_class c) p.
 Proof. exact RegenThm.content_any_state. Qed.
 Print Assumptions regen_content_canonical.
 
-(* FULL STATEMENT REFUTED in the excluded corner, as long as /repo copies support files with shutil.copy behind a gate that
-   accepts directories (the premise is computed from the translated model): the run reports success, the target is still
-   a directory, now chmod-ed to the file mode, and a non-target entry has appeared inside it. *)
-Theorem copy_into_directory_refuted : copy_into_dir_quirk = true ->
-  exists e s c p, c_dryrun c = false /\ c_filepps c <> [] /\ In p (targets c) /\ dir_at_copy_target c s = true /\
-    snd (step wit_render e s c) = Ok /\
-    fs_is_dir (fst (step wit_render e s c)) p = true /\
-    obs (fst (step wit_render e s c) p) = Some (0, 292) /\
-    ~ In (child e p) (targets c) /\ s (child e p) = None /\
-    obs (fst (step wit_render e s c) (child e p)) = Some (1070002, 416).
-Proof. exact RegenThm.copy_into_directory_refuted. Qed.
-Print Assumptions copy_into_directory_refuted.
+(* a directory at the path of ANY file to generate (type file, templated or copied support file) makes the run fail; it is
+   never written into, replaced, chmod-ed (owner and kind kept; untouched altogether when it is not itself a target) *)
+Theorem directory_at_target_fails : forall render e, render_independent render -> env_wf e -> forall s c,
+  c_dryrun c = false -> (exists p, In p (targets c) /\ fs_is_dir s p = true) -> snd (step render e s c) <> Ok.
+Proof. exact RegenThm.directory_at_target_fails. Qed.
+Print Assumptions directory_at_target_fails.
+
+Theorem directory_kept : forall render e, render_independent render -> env_wf e -> forall s ev q f,
+  s q = Some f -> f_isdir f = true ->
+  exists f', apply_event render e s ev q = Some f' /\ f_isdir f' = true /\ f_owned f' = f_owned f /\
+             (~ In q (targets (ev_cfg ev)) -> f' = f).
+Proof. exact RegenThm.directory_at_target_kept. Qed.
+Print Assumptions directory_kept.
 
 (* the command line appends SetFileMode(file_mode) unconditionally and last *)
 Theorem cli_setfilemode_last : last cli_pp_list (false, KTrim) = (true, KSetFileMode).
@@ -70,11 +71,11 @@ Proof. exact RegenThm.cli_setfilemode_last. Qed.
 Print Assumptions cli_setfilemode_last.
 
 (* ---- what a run can touch ------------------------------------------------------------------------------------------ *)
-(* every entry that differs after a run (successful or failed) is a target, or <copied target>/<resource name>, or a
-   directory above a target that did not exist and has been created *)
-Theorem written_in_footprint : forall render e s c q, fst (step render e s c) q <> s q ->
-  In q (targets c) \/ In q (child_targets e c) \/
-  (In q (dir_targets e c) /\ s q = None /\ fst (step render e s c) q = Some (new_dir e)).
+(* every entry that differs after a run (successful or failed) is a target, or a directory above a target that did not
+   exist and has been created *)
+Theorem written_in_footprint : forall render e, render_independent render -> env_wf e -> forall s c q,
+  fst (step render e s c) q <> s q ->
+  In q (targets c) \/ (In q (dir_targets e c) /\ s q = None /\ fst (step render e s c) q = Some (new_dir e)).
 Proof. exact RegenThm.written_in_footprint. Qed.
 Print Assumptions written_in_footprint.
 
@@ -97,23 +98,23 @@ Theorem targets_distinct_from_c11 : forall strop es ext stem outdir g perm types
 Proof. exact RegenC11.c12_targets_distinct. Qed.
 Print Assumptions targets_distinct_from_c11.
 
-(* existing entries that are neither targets nor inside a copied-target directory keep content, mode, everything -- in every
-   run, failed or not; a missing path stays missing unless it is a directory above a target *)
-Theorem foreign_untouched : forall render e s c q,
-  ~ In q (targets c) -> ~ In q (child_targets e c) -> (s q <> None \/ ~ In q (dir_targets e c)) ->
+(* existing entries that are not targets keep content, mode, everything -- in every run, failed or not; a missing path stays
+   missing unless it is a directory above a target *)
+Theorem foreign_untouched : forall render e, render_independent render -> env_wf e -> forall s c q,
+  ~ In q (targets c) -> (s q <> None \/ ~ In q (dir_targets e c)) ->
   fst (step render e s c) q = s q.
 Proof. exact RegenThm.foreign_untouched. Qed.
 Print Assumptions foreign_untouched.
 
-Theorem history_foreign : forall render e h s q,
-  (forall ev, In ev h -> ~ In q (targets (ev_cfg ev)) /\ ~ In q (child_targets e (ev_cfg ev))) ->
+Theorem history_foreign : forall render e, render_independent render -> env_wf e -> forall h s q,
+  (forall ev, In ev h -> ~ In q (targets (ev_cfg ev))) ->
   (s q <> None \/ forall ev, In ev h -> ~ In q (dir_targets e (ev_cfg ev))) ->
   history render e s h q = s q.
 Proof. exact RegenThm.history_foreign. Qed.
 Print Assumptions history_foreign.
 
-Theorem foreign_dirs_only : forall render e h s q,
-  (forall ev, In ev h -> ~ In q (targets (ev_cfg ev)) /\ ~ In q (child_targets e (ev_cfg ev))) ->
+Theorem foreign_dirs_only : forall render e, render_independent render -> env_wf e -> forall h s q,
+  (forall ev, In ev h -> ~ In q (targets (ev_cfg ev))) ->
   history render e s h q = s q \/ (s q = None /\ history render e s h q = Some (new_dir e)).
 Proof. exact RegenThm.foreign_dirs_only. Qed.
 Print Assumptions foreign_dirs_only.
@@ -125,7 +126,7 @@ Proof. exact RegenThm.foreign_unconditional_refuted. Qed.
 Print Assumptions foreign_unconditional_refuted.
 
 (* ---- --no-overwrite ---------------------------------------------------------------------------------------------------- *)
-(* nothing that existed before the run changes (files, directories, inside directories at copied targets too) *)
+(* nothing that existed before the run changes (files and directories) *)
 Theorem no_overwrite_safe : forall render e, render_independent render -> env_wf e -> forall s c q,
   c_allow c = false -> s q <> None -> fst (step render e s c) q = s q.
 Proof. exact RegenThm.no_overwrite_safe. Qed.
@@ -137,7 +138,7 @@ Proof. exact RegenThm.no_overwrite_safe_history. Qed.
 Print Assumptions no_overwrite_safe_history.
 
 (* a conflict is never silently accepted *)
-Theorem no_overwrite_conflict_fails : forall render e s c,
+Theorem no_overwrite_conflict_fails : forall render e, render_independent render -> env_wf e -> forall s c,
   c_dryrun c = false -> c_allow c = false ->
   (exists p, In p (targets c) /\ s p <> None) -> snd (step render e s c) <> Ok.
 Proof. exact RegenThm.no_overwrite_conflict_fails. Qed.
@@ -163,8 +164,7 @@ Print Assumptions regen_total_history.
 (* ---- crash points: an interrupted run (any prefix of the action list, possibly dying inside a write) -------------------- *)
 Theorem interrupted_then_rerun_equals_fresh : forall render e, render_independent render -> env_wf e ->
   forall s c0 n j junk c p,
-  c_dryrun c = false -> c_filepps c <> [] -> copy_not_anc e c ->
-  dir_at_copy_target c (step_crash render e s c0 n j junk) = false ->
+  c_dryrun c = false -> c_filepps c <> [] ->
   snd (step render e (step_crash render e s c0 n j junk) c) = Ok -> snd (step render e empty_fs c) = Ok -> In p (targets c) ->
   obs (fst (step render e (step_crash render e s c0 n j junk) c) p) = obs (fst (step render e empty_fs c) p).
 Proof. intros render e Hi Hw s c0 n j junk. exact (RegenThm.regen_equals_fresh render e Hi Hw [Crash c0 n j junk] s). Qed.
@@ -180,10 +180,10 @@ Proof.
 Qed.
 Print Assumptions interrupted_then_rerun_succeeds.
 
-Theorem interrupted_touches_only_footprint : forall render e s c n j junk q,
-  ~ In q (targets c) -> ~ In q (child_targets e c) -> (s q <> None \/ ~ In q (dir_targets e c)) ->
+Theorem interrupted_touches_only_footprint : forall render e, render_independent render -> env_wf e -> forall s c n j junk q,
+  ~ In q (targets c) -> (s q <> None \/ ~ In q (dir_targets e c)) ->
   step_crash render e s c n j junk q = s q.
-Proof. intros render e s c n j junk. exact (RegenThm.foreign_event render e s (Crash c n j junk)). Qed.
+Proof. intros render e Hi Hw s c n j junk. exact (RegenThm.foreign_event render e Hi Hw s (Crash c n j junk)). Qed.
 Print Assumptions interrupted_touches_only_footprint.
 
 (* --no-overwrite after a partial run: everything the crash left (including a truncated file) stays as it is, and if the
@@ -197,7 +197,7 @@ Theorem no_overwrite_after_crash : forall render e, render_independent render ->
 Proof.
   intros render e Hi Hw s c0 n j junk c Ha Hd. split.
   - intros q. now apply RegenThm.no_overwrite_safe.
-  - now apply RegenThm.no_overwrite_conflict_fails.
+  - now apply (RegenThm.no_overwrite_conflict_fails render e Hi Hw).
 Qed.
 Print Assumptions no_overwrite_after_crash.
 
@@ -225,7 +225,7 @@ Example ex_overwrite_readonly :
   snd (step wit_render (wit_env false) ex_fs (ex_cfg true)) = Ok /\
   map (fun p => obs (fst (step wit_render (wit_env false) ex_fs (ex_cfg true)) p)) [1; 2; 3; 4]
   = [Some (0, 493); Some (1070002, 292); None; Some (1070004, 292)] /\
-  dir_at_copy_target (ex_cfg true) ex_fs = false /\ targets (ex_cfg true) = [2; 4] /\
+  targets (ex_cfg true) = [2; 4] /\
   forallb (ready (wit_env false) ex_fs) (targets (ex_cfg true)) = true.
 Proof. vm_compute. repeat split; reflexivity. Qed.
 Print Assumptions ex_overwrite_readonly.
@@ -244,5 +244,5 @@ Proof. vm_compute. repeat split; reflexivity. Qed.
 Print Assumptions ex_crash_then_rerun.
 
 Example ex_compatible : compatible (wit_env false) (ex_cfg true) (ex_cfg true).
-Proof. split; intros q Ha [Ht|Ht]; vm_compute in Ha, Ht; intuition (subst; discriminate). Qed.
+Proof. split; intros q Ha Ht; vm_compute in Ha, Ht; intuition (subst; discriminate). Qed.
 Print Assumptions ex_compatible.
